@@ -648,6 +648,7 @@ impl SvgElement {
 
     /// Calculate bounding box of target_shape inside self
     pub fn inscribed_bbox(&self, target_shape: &str) -> Result<Option<BoundingBox>> {
+        self.ensure_positioned()?;
         let zstr = "0".to_owned();
         match (target_shape, self.name.as_str()) {
             // rect inside circle
@@ -790,7 +791,32 @@ impl SvgElement {
         }
     }
 
+    /// True if the element still has positioning shorthand which `resolve_position()`
+    /// has yet to turn into native geometry attributes.
+    fn has_pending_position(&self) -> bool {
+        const PENDING: [&str; 12] = [
+            "xy", "cxy", "xy1", "xy2", "wh", "rxy", "dxy", "dwh", "dw", "dh", "surround",
+            "inside",
+        ];
+        PENDING.iter().any(|a| self.has_attr(a))
+            || self.is_connector()
+            || (!matches!(self.name.as_str(), "text" | "tspan" | "feOffset")
+                && (self.has_attr("dx") || self.has_attr("dy")))
+    }
+
+    /// Error if this element is registered (e.g. as a forward reference target) but
+    /// its position is not yet resolved; any geometry derived now would be wrong.
+    fn ensure_positioned(&self) -> Result<()> {
+        if self.content_bbox.is_none() && self.has_pending_position() {
+            return Err(SvgdxError::InvalidData(format!(
+                "Element not yet positioned: {self}"
+            )));
+        }
+        Ok(())
+    }
+
     pub fn bbox(&self) -> Result<Option<BoundingBox>> {
+        self.ensure_positioned()?;
         let mut el_bbox = if self.content_bbox.is_some() {
             // container elements (`g`, `symbol`, `clipPath` etc) set this
             // to the bbox of their contents
@@ -1022,7 +1048,7 @@ impl SvgElement {
     fn eval_size_attr(&self, name: &str, value: &str, ctx: &impl ElementMap) -> Result<String> {
         if let Ok(attr_ss) = ScalarSpec::from_str(name) {
             if let (Some(el), remain) = split_relspec(value, ctx)? {
-                if let Ok(Some(bbox)) = ctx.get_element_bbox(el) {
+                if let Some(bbox) = ctx.get_element_bbox(el)? {
                     // default value - same 'type' as attr name, e.g. y2 => ymax
                     let mut v = bbox.scalarspec(attr_ss);
                     // "[~scalarspec][ delta]"
@@ -1043,7 +1069,7 @@ impl SvgElement {
     fn eval_pos_attr(&self, name: &str, value: &str, ctx: &impl ElementMap) -> Result<String> {
         if let Ok(attr_ss) = ScalarSpec::from_str(name) {
             if let (Some(el), remain) = split_relspec(value, ctx)? {
-                if let Ok(Some(bbox)) = ctx.get_element_bbox(el) {
+                if let Some(bbox) = ctx.get_element_bbox(el)? {
                     return self.pos_attr_helper(remain, &bbox, attr_ss);
                 }
             }
